@@ -15,7 +15,11 @@ RULE = ("(1) Nodes.typed_value vs the model on every text of length <= L over 16
         "boolean-looking / empty / plain strings; needles include every spelling class and regular expressions, valid "
         "and invalid); (3) seeded random scalars x random terms x 9 operators; (4) inversion through the real "
         "Processor.get_nodes on every list of <= 3 scalars from an 8-value pool and on hashes (key names, attribute) and "
-        "sets x operators x terms x plain/inverted; (5) the same through collectors: documents of 3 collections of numbers whose "
+        "sets x operators x terms x plain/inverted; (4b) `[.OP term]` / `[.!OP term]` over lists of records: every list of <= 3 members (a sample of "
+        "those of 4) over {null, three hashes, the empty hash, two scalars} with at least one hash (Arrays-of-Hashes, Arrays-of-Hashes with "
+        "null members, records mixed with scalars), at the root and under a key, x 9 operators x terms naming a key of some / of no record, "
+        "the text of null, the empty term - judged without a model: no exception but a YAML Path error, inverted = exactly the members the "
+        "plain search does not yield, a null member selected exactly when the typed rules match null; (5) the same through collectors: documents of 3 collections of numbers whose "
         "text order differs from their numeric order (digit counts, negatives, floats; some with numeric-looking / plain "
         "strings), every grouping (X), ((X)), (X)+(Y), ((X)+(Y)), (((X)+(Y))+(Z)), ((X)+((Y)+(Z))) ... of their members, both "
         "notations, followed by [.OP term] plain and inverted: the result must be the collected members the typed rules "
